@@ -132,7 +132,8 @@ def load_known():
 
 
 def write_replay(pid, seed, n, payload):
-    d = os.path.join(VERIF, "replays")
+    # VERIF_REPLAY_DIR: sanity runs against deliberately modified trees keep their replays out of /verif/replays
+    d = os.environ.get("VERIF_REPLAY_DIR") or os.path.join(VERIF, "replays")
     os.makedirs(d, exist_ok=True)
     path = os.path.join(d, "%s-%s-%d.json" % (pid, seed, n))
     with open(path, "w") as fh:
